@@ -606,7 +606,12 @@ func (mgr *Manager) invalidateTags(updatedStreams, resetStreams, addedStreams bi
 			//TODO: is a matching stream really uncertain?
 			tin.Uncertain = mgr.allStreams
 		} else if ti.features.MainFeatures&^query.FeatureFilterID == 0 {
-			continue
+			// streams never change their id, only new streams have to be evaluated
+			if addedStreams.IsZero() {
+				continue
+			}
+			tin.Uncertain = ti.Uncertain.Copy()
+			tin.Uncertain.Or(addedStreams)
 		} else {
 			tin.Uncertain = ti.Uncertain.Copy()
 			tin.Uncertain.Or(addedStreams)
@@ -1310,6 +1315,7 @@ func (mgr *Manager) UpdateTag(name string, operation UpdateTagOperation) error {
 				newTag := *tag
 				newTag.Matches = tag.Matches.Copy()
 				newTag.Uncertain = tag.Uncertain.Copy()
+				stillUncertain := tag.Uncertain.Copy()
 				// update mark streamid tag matches without parsing the definition again
 				// this is a bit hacky but it is much faster than parsing the definition of long mark tags again
 				if len(info.markTagAddStreams) != 0 {
@@ -1369,7 +1375,14 @@ func (mgr *Manager) UpdateTag(name string, operation UpdateTagOperation) error {
 				tag = &newTag
 				mgr.tags[name] = tag
 				mgr.inheritTagUncertainty()
-				mgr.tags[name].Uncertain = bitmask.LongBitmask{}
+				// the marked and unmarked streams are decided, streams added by imports may still be pending
+				for _, s := range info.markTagAddStreams {
+					stillUncertain.Unset(uint(s))
+				}
+				for _, s := range info.markTagDelStreams {
+					stillUncertain.Unset(uint(s))
+				}
+				mgr.tags[name].Uncertain = stillUncertain
 				mgr.startTaggingJobIfNeeded()
 				mgr.startConverterJobIfNeeded()
 			}
